@@ -1,6 +1,7 @@
 package main
 
 import (
+	"strings"
 	"encoding/json"
 	"fmt"
 )
@@ -229,6 +230,7 @@ func checkC04(c *Ctx) {
 		st = append(st, fileStaticCase(fmt.Sprintf("file%d", i), f, src, o, r.Out))
 	}
 	c04Report(c, st, RunStatic(c, st, true))
+	c04Duplicates(c)
 	c.Cov("programs", int64(len(progs)))
 	c.Cov("rejected_by_compiler", int64(rejected))
 }
@@ -260,4 +262,80 @@ func c04Report(c *Ctx, st []*StaticCase, sr *StaticResult) {
 	c.Cov("states", sr.States)
 	c.Cov("transitions", sr.Generated)
 	c.Cov("traces_validated_against_impl", int64(sr.Cases))
+}
+
+// c04Duplicates: the author gives the same name to two things.  The output can only be closed
+// if the program is rejected; an accepted program defines the label twice.  One case per
+// unordered pair of kinds (x with/without an inline text elsewhere in the file x optimize);
+// the violation key names the pair, so that the pairs listed as open findings stay quiet and
+// any other pair is reported.
+func c04Duplicates(c *Ctx) {
+	kinds := []string{"script", "mapscripts", "text", "movement", "mart", "label"}
+	mk := func(kind, name string, idx int) Top {
+		switch kind {
+		case "script":
+			return Top{K: "script", Name: name, Body: []Stmt{{K: "cmd", Toks: []string{fmt.Sprintf("c%d", idx)}}}}
+		case "mapscripts":
+			return Top{K: "mapscripts", Name: name, MS: []MSEntry{{Type: "MAP_SCRIPT_ON_LOAD", Kind: "plain", Target: "Elsewhere"}}}
+		case "text":
+			return Top{K: "text", Name: name, Text: &TextLit{Parts: []string{fmt.Sprintf("t%d", idx)}}}
+		case "movement":
+			return Top{K: "movement", Name: name, Items: []ListItem{{Name: fmt.Sprintf("walk_%d", idx)}}}
+		case "mart":
+			return Top{K: "mart", Name: name, Items: []ListItem{{Name: fmt.Sprintf("ITEM_%d", idx)}}}
+		}
+		return Top{K: "script", Name: fmt.Sprintf("Host%d", idx), Body: []Stmt{{K: "cmd", Toks: []string{"before"}}, {K: "label", Name: name}, {K: "cmd", Toks: []string{"after"}}}}
+	}
+	var st []*StaticCase
+	keyOf := map[string]string{}
+	rejected, accepted := 0, 0
+	for i, k1 := range kinds {
+		for j, k2 := range kinds {
+			for v := 0; v < 2; v++ {
+				f := &File{Tops: []Top{mk(k1, "Same", 1), {K: "script", Name: "Between", Body: []Stmt{{K: "cmd", Toks: []string{"nop"}}}}, mk(k2, "Same", 2)}}
+				if v == 1 {
+					f.Tops[1].Body = []Stmt{{K: "cmd", Toks: []string{"msgbox", "@inl0"}, Inl: []Inline{{Kind: "text", Parts: []string{"hello"}}}}}
+				}
+				src, _ := RenderFile(f, Style{Layout: v})
+				for _, opt := range []bool{true, false} {
+					o := Opts{Optimize: opt}
+					r := Compile(src, o)
+					if r.Panic != "" || r.TimedOut {
+						c.Violate(Violation{What: "compiler panicked or hung on a file with a duplicated name", Source: src, Opts: &o})
+						continue
+					}
+					if r.Err != nil {
+						rejected++
+						continue
+					}
+					accepted++
+					id := fmt.Sprintf("dup%d.%d.%d.o%d", i, j, v, b2i(opt))
+					a, b := k1, k2
+					if i > j {
+						a, b = k2, k1
+					}
+					keyOf[id] = "dup:" + a + "/" + b
+					st = append(st, &StaticCase{ID: id, Src: src, Opts: o, Out: r.Out, Scopes: map[string]string{}})
+				}
+			}
+		}
+	}
+	sr := RunStatic(c, st, false)
+	byID := map[string]*StaticCase{}
+	for _, s := range st {
+		byID[s.ID] = s
+	}
+	seen := map[string]bool{}
+	for id, names := range sr.Failing {
+		for _, n := range names {
+			if n == "UniqueLabels" && !seen[keyOf[id]] {
+				seen[keyOf[id]] = true
+				s := byID[id]
+				c.Violate(Violation{Key: keyOf[id], What: "a program giving the same name to two things (" + strings.TrimPrefix(keyOf[id], "dup:") + ") is accepted and the label is defined twice",
+					Source: s.Src, Opts: &s.Opts, Detail: map[string]interface{}{"output": s.Out}})
+			}
+		}
+	}
+	c.Cov("duplicate_name_files_rejected", int64(rejected))
+	c.Cov("duplicate_name_files_accepted", int64(accepted))
 }
